@@ -18,9 +18,13 @@ pub struct ClassLine {
     pub parent: Option<String>,
 }
 
+/// a FIELD / METHOD / ARG line: (line, depth, tag, first token after the tag)
+pub type MemberLine = (usize, usize, &'static str, String);
+
 #[derive(Clone, Debug, Default, PartialEq, Eq)]
 pub struct Scan {
     pub classes: Vec<ClassLine>,
+    pub members: Vec<MemberLine>,
     pub fields: usize,
     pub methods: usize,
     pub args: usize,
@@ -67,10 +71,12 @@ pub fn scan(text: &str) -> Scan {
             }
             "FIELD" | "METHOD" => {
                 if depth == 0 || last_kind[depth - 1] != "CLASS" { out.problems.push(format!("line {lineno}: {} outside a class", toks[0])); }
+                out.members.push((lineno, depth, if toks[0] == "FIELD" { "FIELD" } else { "METHOD" }, toks.get(1).unwrap_or(&"").to_string()));
                 if toks[0] == "FIELD" { out.fields += 1; last_kind.push("FIELD"); } else { out.methods += 1; last_kind.push("METHOD"); }
             }
             "ARG" => {
                 if depth == 0 || last_kind[depth - 1] != "METHOD" { out.problems.push(format!("line {lineno}: ARG outside a method")); }
+                out.members.push((lineno, depth, "ARG", toks.get(1).unwrap_or(&"").to_string()));
                 out.args += 1;
                 last_kind.push("ARG");
             }
@@ -78,6 +84,34 @@ pub fn scan(text: &str) -> Scan {
         }
     }
     out
+}
+
+impl Scan {
+    /// Sibling sequences that are not in ascending order of their first token (classes: source token; FIELD /
+    /// METHOD: source name, ties allowed — overloads; ARG: numeric index). Siblings = same tag, same depth, no line of
+    /// smaller depth in between (and, for depth-0 classes, the whole text).
+    pub fn unsorted(&self) -> Vec<String> {
+        let mut out = vec![];
+        // (line, depth, tag, token)
+        let mut all: Vec<(usize, usize, &'static str, String)> = self.members.clone();
+        // file-level classes are ordered by FILE name (target name), which the caller checks through the `# name` remarks
+        for c in &self.classes { all.push((c.line, c.depth, if c.depth == 0 { "CLASS0" } else { "CLASS" }, c.src_token.clone())); }
+        all.sort_by_key(|x| x.0);
+        // last token seen per (depth, tag); cleared when a shallower line appears
+        let mut last: Vec<std::collections::BTreeMap<&'static str, String>> = vec![];
+        for (line, depth, tag, tok) in all {
+            last.truncate(depth + 1);
+            while last.len() < depth + 1 { last.push(Default::default()); }
+            // a new parent at this depth closes the deeper levels (done by truncate); a line at `depth` whose tag opens children keeps its own level
+            if tag == "CLASS0" { continue; }
+            if let Some(prev) = last[depth].get(tag) {
+                let bad = if tag == "ARG" { match (prev.parse::<u64>(), tok.parse::<u64>()) { (Ok(a), Ok(b)) => a >= b, _ => true } } else if tag == "CLASS" { prev.as_str() >= tok.as_str() } else { prev.as_str() > tok.as_str() };
+                if bad { out.push(format!("line {line}: {tag} {tok:?} after {prev:?}")); }
+            }
+            last[depth].insert(tag, tok);
+        }
+        out
+    }
 }
 
 /// Source-name nesting: `P$I` is an inner class of `P` when the split at the LAST `$` leaves a non-empty parent that does
@@ -101,6 +135,12 @@ mod tests {
         assert_eq!(names, ["a/A", "a/A$B", "a/A$B$C", "a/A$D", "E"]);
         assert_eq!(s.classes[2].parent.as_deref(), Some("a/A$B"));
         assert_eq!((s.fields, s.methods, s.args, s.comment_lines, s.remark_lines), (1, 1, 1, 2, 2));
+        assert!(s.unsorted().is_empty(), "{:?}", s.unsorted());
+        assert_eq!(scan("CLASS b\nCLASS a\n").unsorted().len(), 0);
+        assert_eq!(scan("CLASS b\n\tCLASS z\n\tCLASS a\n").unsorted().len(), 1);
+        assert_eq!(scan("CLASS a\n\tFIELD z I\n\tFIELD y I\n").unsorted().len(), 1);
+        assert_eq!(scan("CLASS a\n\tFIELD z I\nCLASS b\n\tFIELD y I\n").unsorted().len(), 0);
+        assert_eq!(scan("CLASS a\n\tMETHOD m ()V\n\t\tARG 2 x\n\t\tARG 10 y\n").unsorted().len(), 0);
         assert_eq!(split_inner("a/$B"), None);
         assert_eq!(split_inner("A$"), None);
         assert_eq!(split_inner("A$$B"), Some(("A$", "B")));
